@@ -180,14 +180,14 @@ theorem C04_safe_traced_iff (o : TraceOpts) (fs : TFields) (fields : List Field)
 constructed, and the typed read of every index returns the normalised value (`C04_roundtrip`,
 `C04_roundtrip_bulk` are its two front ends).  No hypothesis about `ext`: the schema has no temporal column, so the run is
 replayed under `refuseExt ext` (`toMarrow_refuse_traced`), for which `ExtOK` holds (`refuseExt_ok`). -/
-theorem C04_roundtrip_core (c : Trace.Code) (O : Trace.Options) (ext : Ext) (n : String) (fs : TFields) (vs : List Val)
+theorem C04_roundtrip_core_fields (O : Trace.Options) (ext : Ext) (n : String) (fs : TFields) (vs : List Val)
     (fields : List Field) (arrs : List Arr)
-    (h0 : O.overwrites = []) (hfrag : fragE (.struct n fs) = true) (hne : fs ≠ .nil)
+    (hfrag : fragE (.struct n fs) = true) (hne : fs ≠ .nil)
     (hwt : ∀ v ∈ vs, wt (.struct n fs) v = true)
     (hsc : ∀ v ∈ vs, inScopeO (viewOpts O) (.struct n fs) v = true)
     (hphys : Spec.wfFields (mappingFields (viewOpts O) fs) (zipCols fields arrs) vs.length = true →
       Read.physicalFields (zipCols fields arrs) = true)
-    (hft : Trace.fromType c O (toTraceTy (.struct n fs)) = .ok fields)
+    (hfields : fields = (mappingFields (viewOpts O) fs).toList)
     (htm : toMarrow ext fields (vs.map (ser (.struct n fs))) = .ok arrs) :
     Access.new true fields.length (arrs.map Read.vlen) = .ok vs.length ∧
     Read.new Read.Fixes.all (rootArr fields arrs vs.length) = .ok () ∧
@@ -196,8 +196,7 @@ theorem C04_roundtrip_core (c : Trace.Code) (O : Trace.Options) (ext : Ext) (n :
         .ok (dvalOf (.struct n fs) (norm (.struct n fs) vs[i])) := by
   let t : Ty := .struct n fs
   let o := viewOpts O
-  have hroot : mappingRoot o t = some fields := C04_fromType_mapping c O h0 t fields hft
-  have hfields : fields = (mappingFields o fs).toList := C04_fromType_fields c O h0 n fs fields hft
+  have hroot : mappingRoot o t = some fields := by simp [mappingRoot, mappingDT, hfields, t, o]
   have hofl : Fields.ofList fields = mappingFields o fs := by rw [hfields]; exact Fields.ofList_toList _
   -- no temporal column in a traced schema: the chrono parsers of `ext` are never consulted — replace them by refusing ones
   have htm' : toMarrow (refuseExt ext) fields (vs.map (ser t)) = .ok arrs := by
@@ -267,6 +266,40 @@ theorem C04_roundtrip_core (c : Trace.Code) (O : Trace.Options) (ext : Ext) (n :
     (by simpa [rootArr, Read.new] using hnewF)
     (by simpa [rootArr, Read.physical] using hphys hcols)
     (utf8Ok_lvO o t vs[i]) hcast
+
+/-- the core against what `from_type` returned (`C04_roundtrip_core_fields` with `C04_fromType_fields`) -/
+theorem C04_roundtrip_core (c : Trace.Code) (O : Trace.Options) (ext : Ext) (n : String) (fs : TFields) (vs : List Val)
+    (fields : List Field) (arrs : List Arr)
+    (h0 : O.overwrites = []) (hfrag : fragE (.struct n fs) = true) (hne : fs ≠ .nil)
+    (hwt : ∀ v ∈ vs, wt (.struct n fs) v = true)
+    (hsc : ∀ v ∈ vs, inScopeO (viewOpts O) (.struct n fs) v = true)
+    (hphys : Spec.wfFields (mappingFields (viewOpts O) fs) (zipCols fields arrs) vs.length = true →
+      Read.physicalFields (zipCols fields arrs) = true)
+    (hft : Trace.fromType c O (toTraceTy (.struct n fs)) = .ok fields)
+    (htm : toMarrow ext fields (vs.map (ser (.struct n fs))) = .ok arrs) :
+    Access.new true fields.length (arrs.map Read.vlen) = .ok vs.length ∧
+    Read.new Read.Fixes.all (rootArr fields arrs vs.length) = .ok () ∧
+    ∀ (i : Nat) (hi : i < vs.length),
+      Read.readAs Read.Fixes.all (toTarget (.struct n fs)) (rootArr fields arrs vs.length) i =
+        .ok (dvalOf (.struct n fs) (norm (.struct n fs) vs[i])) :=
+  C04_roundtrip_core_fields O ext n fs vs fields arrs hfrag hne hwt hsc hphys (C04_fromType_fields c O h0 n fs fields hft) htm
+
+/-- `C04_physical` against the documented mapping itself (no hypothesis about `from_type`) -/
+theorem C04_physical_fields (O : Trace.Options) (ext : Ext) (n : String) (fs : TFields) (vs : List Val)
+    (fields : List Field) (arrs : List Arr)
+    (hwt : ∀ v ∈ vs, wt (.struct n fs) v = true)
+    (hlen : vs.length ≤ 9223372036854775807)
+    (hfields : fields = (mappingFields (viewOpts O) fs).toList)
+    (htm : toMarrow ext fields (vs.map (ser (.struct n fs))) = .ok arrs) : ∀ a ∈ arrs, Read.physical a = true := by
+  have hside := sideFs_toList (mappingFields (viewOpts O) fs) (mappingFields_side (viewOpts O) fs)
+  rw [← hfields] at hside
+  refine Props.C03.toMarrow_physical ext fields (vs.map (ser (.struct n fs))) arrs
+    (List.all_eq_true.mpr fun f hf => (hside f hf).2) ?_ ?_ htm
+  · intro x hx
+    obtain ⟨v, hv, rfl⟩ := List.mem_map.mp hx
+    exact (ser_ok _ v (hwt v hv)).1
+  · rw [List.length_map, hfields]
+    exact mapped_sizeOK (viewOpts O) fs vs.length hlen
 
 /-- **`Read.physical` of the arrays built against a type-traced schema** — the size precondition of the reader, EVERY option
 (dictionary-encoded strings and string-stored enums included): at most `i64::MAX` records.  `Props.C03.toMarrow_physical` (the
